@@ -1547,3 +1547,95 @@ def strip_props(v):
                 for x in C[k]:
                     x.pop("props", None)
     return v
+
+# ------------------------------------------------------------------------------------------------
+# the fragment of the Lean theorem C05.edif_reader_spec (lean/Spydr/Edif/Abstract.lean)
+# ------------------------------------------------------------------------------------------------
+def fragment_reasons(d):
+    """the syntactic features of an abstract design that the Lean `ADesign` does not have, in a fixed order
+    (the first one is reported as `theorem_fragment:…:out:<reason>`); empty list: the design can be
+    handed to the driver, which evaluates the decidable hypothesis `wf`"""
+    out = []
+
+    def add(r):
+        if r not in out:
+            out.append(r)
+    if d.get("status") is not None:
+        add("status_block")
+    seen_design = False
+    for it in d["body"]:
+        if it["k"] == "comment":
+            add("comment")
+        elif it["k"] == "design":
+            seen_design = True
+            if it.get("props"):
+                add("design_property")
+        elif it["k"] == "lib":
+            if seen_design:
+                add("construct_after_design")
+            if it.get("external"):
+                add("external_library")
+            if it.get("comments"):
+                add("comment")
+            for c in it["cells"]:
+                if c["view"].get("orig") is not None:
+                    add("view_rename")
+                if c.get("props"):
+                    add("cell_property")
+                if c.get("comments"):
+                    add("comment")
+                for p in c["ports"]:
+                    if p.get("props"):
+                        add("port_property")
+                for i in c["insts"]:
+                    if i.get("noref") or i.get("nocellref"):
+                        add("instance_without_complete_reference")
+                    if i.get("comments"):
+                        add("comment")
+                    if i.get("lspell") is None:
+                        add("libraryRef_omitted")
+                    if any(x.get("owner") is not None for x in i["props"]):
+                        add("property_owner")
+                    if any(x["t"] not in ("s", "i", "b") for x in i["props"]):
+                        add("property_type")
+                for n in c["nets"]:
+                    if n.get("props"):
+                        add("net_property")
+                    if n.get("comments"):
+                        add("comment")
+                    if n["kind"] != "scalar" and n.get("iidx", n["idx"]) != n["idx"]:
+                        add("identifier_index_differs")
+    if not seen_design:
+        add("no_design")
+    return out
+
+
+def to_adesign(d):
+    """JSON of the Lean `ADesign` for a design with fragment_reasons(d) == []"""
+    def nm(x):
+        return [x["id"], x["orig"]]
+    libs = [x for x in d["body"] if x["k"] == "lib"]
+    des = [x for x in d["body"] if x["k"] == "design"][-1]
+    out = {"name": nm(d["name"]), "libs": [], "top": nm(des["nm"]), "tli": des["ref"][0], "tdi": des["ref"][1],
+           "tcsp": des["cspell"], "tlsp": des["lspell"]}
+    for L in libs:
+        cells = []
+        for c in L["cells"]:
+            nets = []
+            for n in c["nets"]:
+                pins = [(["p", x["port"], x["bit"], x["pspell"]] if x["inst"] is None
+                         else ["i", x["inst"], x["port"], x["bit"], x["pspell"], x["ispell"]]) for x in n["pins"]]
+                if n["kind"] == "scalar":
+                    nets.append({"kind": "scalar", "name": nm(n["nm"]), "pins": pins})
+                else:
+                    b = c["buses"][n["bus"]]
+                    nets.append({"kind": "bit", "bid": b["id"], "bname": b["orig"], "idx": n["idx"], "pins": pins})
+            cells.append({
+                "name": nm(c["nm"]), "view": c["view"]["id"],
+                "ports": [{"name": nm(p["nm"]), "dir": DIRS[p["dir"]], "array": p["width"]} for p in c["ports"]],
+                "insts": [{"name": nm(i["nm"]), "li": i["ref"][0], "di": i["ref"][1], "vsp": i["vspell"], "csp": i["cspell"],
+                           "lsp": i["lspell"],
+                           "props": [{"name": nm(x["nm"]), "t": x["t"], "v": x["v"]} for x in i["props"]]} for i in c["insts"]],
+                "nets": nets})
+        out["libs"].append({"name": nm(L["nm"]), "cells": cells})
+    return out
